@@ -13,13 +13,14 @@ CORRESPONDENCES = [
     'exp_decay_factor_averaging == exp_decay_f over primitive binary64 floats, bit-for-bit; errors as exp_decay_q',
 ]
 TRUSTED = [
+    'the IEEE-754 theorems go through Flocq (user-contrib, 4.1.0) and depend on axioms DECLARED BY THE STANDARD LIBRARY (none of ours): the specification of primitive floats and 63-bit integers (FloatAxioms.*_spec, Prim2SF_valid, SF2Prim_Prim2SF, Prim2SF_SF2Prim; Uint63.*_spec, of_to_Z, eqb_correct, eqb_refl), Classical_Prop.classic, FunctionalExtensionality.functional_extensionality_dep and the real-number axioms ClassicalDedekindReals.sig_forall_dec / sig_not_dec (all listed per run by Print Assumptions)',
     'Coq 8.16.1 kernel (coqc); PrimFloat kernel primitives for the float reading of exp_decay (evaluated inside Coq)',
     'extraction with ExtrOcamlBasic only; ocaml/driver.ml; ocamlopt',
     'factor tables are dyadic so that float products are exact; monotonicity/range of exp_decay are proved over Q, '
     'their survival under IEEE rounding is only checked on the sampled range',
 ]
 THEOREMS = ['sched_step_spec', 'sched_history_fold', 'ctor_refuses_callable', 'exp_decay_is_min', 'exp_decay_range',
-            'exp_decay_monotone', 'exp_decay_step0', 'exp_decay_errors']
+            'exp_decay_monotone', 'exp_decay_step0', 'exp_decay_errors', 'exp_decay_float_range', 'exp_decay_float_monotone', 'exp_decay_float_step01']
 NAMES = ['factor_update_steps', 'inv_update_steps', 'damping', 'factor_decay', 'kl_clip', 'lr']
 NOTES = 'exp_decay monotonicity and range are theorems over Q; under IEEE rounding they are checked, not proved.'
 
